@@ -141,7 +141,7 @@ func c11Programs(depth int) []*Spec {
 					sp := &Spec{Name: fmt.Sprintf("c11-race-t%d-%d-%v", total, ci, drop), Refresh: rf, Q: -1}
 					sp.Bars = []BarSpec{{Total: total}, {Total: 9}}
 					sp.Main = []Op{{K: "add", B: 0}, {K: "add", B: 1}}
-					sp.Clients = [][]Op{{comp}, {{K: "abort", B: 0, F: drop}}, {{K: "get", B: 0}, {K: "get", B: 0}, {K: "get", B: 0}}}
+					sp.Clients = [][]Op{{comp}, {{K: "abort", B: 0, F: drop}}, {{K: "get", B: 0}, {K: "get", B: 0}, {K: "get", B: 0}}, {{K: "get", B: 0}, {K: "get", B: 0}}}
 					sp.Main2 = []Op{{K: "join"}, {K: "get", B: 0}, {K: "cancel"}}
 					sp.Late = []Op{{K: "get", B: 0}}
 					out = append(out, sp)
